@@ -743,12 +743,17 @@ def note_mod_rules(repo: Repo, rep, P: str):
         return None
     ok_set = False
     if store is not None:
+        from ..packed import single_defs as _sd5, resolve_names as _rn5
+        store = _rn5(store, _sd5(s))               # `number = new_mod.index + 1; self.module = number`
         try:
             ok_set = alg.to_poly(store, leaf) == alg.Poly.sym("idx") + 1
         except alg.NotAlgebraic:
-            ok_set = False
+            ok_set = None
     if ok_set:
         rep.ok(f"{P}.R5", f"{rel}:Note.mod.setter", f"self.module = {norm(store)}", "stores index + 1")
+    elif ok_set is None:
+        rep.inconclusive(f"{P}.R5", f"{rel}:Note.mod.setter", f"self.module = {norm(store)}", "the stored module number is not an affine expression of the module's index",
+                         f"{rel}:{s.lineno}")
     else:
         rep.violation(f"{P}.R5", f"{rel}:Note.mod.setter", f"self.module = {norm(store) if store is not None else '?'}",
                       "the note's module number must be the module's index + 1 (0 means no module)", f"{rel}:{s.lineno}")
@@ -789,6 +794,8 @@ def note_mod_rules(repo: Repo, rep, P: str):
         """names, attribute chains, constants and subscripts of these: values that can be written at their use"""
         return all(isinstance(x, (ast.Name, ast.Attribute, ast.Constant, ast.Subscript, ast.Load)) for x in ast.walk(e))
     for path in paths or []:
+        if not g.feasible(path):
+            continue
         # locals along this path (`index = self.module_index`, `found = modules[index]`) are read as what they name
         env_: Dict[str, ast.expr] = {}
         tests_: List[Tuple[str, str]] = []
